@@ -4,8 +4,7 @@
 package main
 
 import (
-	h "github.com/New-JAMneration/JAM-Protocol/internal/verifh"
 	"github.com/New-JAMneration/JAM-Protocol/internal/verifpvm"
 )
 
-func main() { h.Main(verifpvm.GenC01, verifpvm.Run) }
+func main() { verifpvm.Main(verifpvm.GenC01, verifpvm.Run) }
